@@ -135,6 +135,13 @@ def first_difference(a: Tuple[Any, List[Any]], b: Tuple[Any, List[Any]]) -> str:
 
 # --------------------------------------------------------------------------- task functions (picklable)
 
+class Unreconstructible(Exception):
+    """an exception class whose constructor cannot be re-run on `self.args` (two required
+       parameters, one stored argument): pickles in the worker, fails to unpickle in the parent"""
+    def __init__(self, code: int, detail: str) -> None:
+        super().__init__(f"{code}/{detail}")
+
+
 ERR_TYPES = {"ValueError": ValueError, "KeyError": KeyError, "RuntimeError": RuntimeError,
              "AntismashInputError": None, "SecmetInvalidInputError": None}
 
@@ -145,6 +152,9 @@ def make_error(kind: str) -> BaseException:
     if tname == "AntismashInputError":
         from antismash.common.errors import AntismashInputError
         return AntismashInputError(msg)
+    if tname == "Unreconstructible":
+        code, _, detail = msg.partition("/")
+        return Unreconstructible(int(code), detail)
     if tname == "SecmetInvalidInputError":
         from antismash.common.secmet.errors import SecmetInvalidInputError
         return SecmetInvalidInputError(msg)
@@ -358,7 +368,7 @@ def run_rpf(case: Dict[str, Any], tmp: str) -> Dict[str, Any]:
     start = time.monotonic_ns()
     iterable = (a for a in args) if case.get("generator") else args
     obs = _guarded(lambda: base.parallel_function(real_task, iterable, cpus=cpus, timeout=timeout),
-                   case.get("limit", 8.0))
+                   case.get("limit", 30.0))
     if obs.get("blocked"):
         _kill_children()
     # completion order of the chunks, reconstructed from the log
